@@ -63,6 +63,9 @@ func main() {
 		case "degsync":
 			c := loadProgram(repoDir(), mambaMod, 9)
 			r := ruleDegSync(c, func(string) bool { return true })
+			if len(os.Args) > 2 && os.Args[2] == "uwrap" {
+				r = ruleUwrap(c, inFiles("encoding.go"))
+			}
 			if len(os.Args) > 2 && os.Args[2] == "irr" {
 				r = ruleIrreflexive(c, "graph")
 			}
